@@ -288,6 +288,7 @@ func authScenarios() []scenario {
 	ok, eof, er := outcome{kind: "ok"}, outcome{kind: "eof"}, outcome{kind: "err"}
 	more, done := outcome{kind: "ok"}, outcome{kind: "ok", completed: true}
 	nerr := outcome{kind: "err"}
+	nerrDone := outcome{kind: "err", completed: true} // a failing step that nevertheless reports completed
 	return []scenario{
 		{"hs:err", map[string][]outcome{"hs": {er}}},
 		{"hs:eof", map[string][]outcome{"hs": {eof}}},
@@ -296,6 +297,7 @@ func authScenarios() []scenario {
 		{"hs:ok,start:ok,auth:err", map[string][]outcome{"hs": {ok}, "start": {ok}, "auth": {er}}},
 		{"hs:ok,start:ok,auth:ok,next:err", map[string][]outcome{"hs": {ok}, "start": {ok}, "auth": {ok}, "next": {nerr}}},
 		{"hs:ok,start:ok,auth:ok,next:done", map[string][]outcome{"hs": {ok}, "start": {ok}, "auth": {ok}, "next": {done}}},
+		{"hs:ok,start:ok,auth:ok,next:errdone", map[string][]outcome{"hs": {ok}, "start": {ok}, "auth": {ok}, "next": {nerrDone}}},
 		{"hs:ok,start:ok,auth:ok,next:more,auth:ok,next:done", map[string][]outcome{"hs": {ok}, "start": {ok}, "auth": {ok, ok}, "next": {more, done}}},
 		{"hs:ok,start:ok,auth:ok,next:more,auth:eof", map[string][]outcome{"hs": {ok}, "start": {ok}, "auth": {ok, eof}, "next": {more}}},
 		{"hs:ok,start:ok,auth:ok,next:more,auth:ok,next:more,auth:ok,next:err", map[string][]outcome{"hs": {ok}, "start": {ok}, "auth": {ok, ok, ok}, "next": {more, more, nerr}}},
